@@ -505,7 +505,7 @@ pub fn pair_law(
         .collect()
 }
 
-/// Unused-import guard for `model` (kept public for the bins).
+/// The default policy (what a query without WITH EPISTEMIC runs under).
 pub fn baseline() -> &'static model::Policy {
     &POLICIES[0]
 }
